@@ -1,4 +1,5 @@
 import Hub.Lemmas.SubIdxTbl
+import Hub.Model.Run
 /-
 C09, subscription side: `SubIdx` (Hub/Model/Inv.lean) is preserved by every handler, every hook
 piece, every block step and holds in every genesis state.
@@ -18,6 +19,7 @@ set_option linter.unreachableTactic false
 namespace Hub.Model
 open Hub.SDK
 open Hub.Generated (Status AmountForBytes GetProportionOfCoin Gigabyte)
+open Hub.Generated.Keys
 
 /-- Key uniqueness after a chain of `set`/`erase` updates. -/
 macro "nodup_tac" : tactic =>
@@ -254,6 +256,50 @@ theorem CountInv.fresh {s : State} (hc : CountInv s) : Fresh s (s.subCount.getD 
   · intro t; rw [Bool.eq_false_iff]; intro h; have := i6 _ _ h; omega
   · intro t; rw [Bool.eq_false_iff]; intro h; have := i7 _ _ h; omega
   · intro a n; rw [Bool.eq_false_iff]; intro h; have := i8 _ _ _ h; omega
+
+/-- Records sit under their own id — the part of `CountInv` the hook steps need (and trivially keep:
+every write is at the record's own id). -/
+structure KeyedV (v : SubView) : Prop where
+  subs : ∀ i x, v.subs.get i = some x → x.id = i
+  allocs : ∀ i a al, v.allocs.get (i, a) = some al → al.id = i ∧ al.addr = a
+  payouts : ∀ i p, v.payouts.get i = some p → p.id = i
+
+abbrev Keyed (s : State) : Prop := KeyedV (subView s)
+
+theorem CountInv.keyed {s : State} (hc : CountInv s) : Keyed s :=
+  ⟨fun i x h => (hc.subs i x h).1, fun i a al h => ⟨(hc.allocs i a al h).1, (hc.allocs i a al h).2.1⟩,
+   fun i p h => (hc.payouts i p h).1⟩
+
+theorem KeyedV.of_eq {s : State} {v : SubView} (e : subView s = v) (h : KeyedV v) : Keyed s := by
+  subst e; exact h
+
+theorem Keyed.of_view {s s' : State} (h : subView s' = subView s) (hk : Keyed s) : Keyed s' := by
+  unfold Keyed; rw [h]; exact hk
+
+/-- Every record of `v'` is a record of `v` under the same key, or sits under its own id. -/
+theorem KeyedV.of_get {v v' : SubView} (hk : KeyedV v)
+    (h1 : ∀ i x, v'.subs.get i = some x → v.subs.get i = some x ∨ x.id = i)
+    (h2 : ∀ i a al, v'.allocs.get (i, a) = some al → v.allocs.get (i, a) = some al ∨ (al.id = i ∧ al.addr = a))
+    (h3 : ∀ i p, v'.payouts.get i = some p → v.payouts.get i = some p ∨ p.id = i) : KeyedV v' := by
+  refine ⟨fun i x h => ?_, fun i a al h => ?_, fun i p h => ?_⟩
+  · rcases h1 i x h with e | e
+    · exact hk.subs i x e
+    · exact e
+  · rcases h2 i a al h with e | e
+    · exact hk.allocs i a al e
+    · exact e
+  · rcases h3 i p h with e | e
+    · exact hk.payouts i p e
+    · exact e
+
+/-- `KeyedV` after a chain of `set`/`erase` at own ids. -/
+macro "keyed_tac" hk:term : tactic =>
+  `(tactic| (refine KeyedV.of_get $hk ?_ ?_ ?_ <;> intros <;> rename_i hget <;>
+      simp only [Tbl.get_set, Tbl.get_erase] at hget <;> (try split_ifs at hget) <;>
+      first
+        | (left; exact hget)
+        | (exfalso; exact Option.noConfusion hget)
+        | (simp only [Option.some.injEq] at hget; subst hget; right; simp_all)))
 
 /-! ### creation -/
 
@@ -501,28 +547,58 @@ theorem pendingPlainV {v : SubView} {sub sub' : Sub} {j : Nat} {t' : Time} (hi :
   · obtain ⟨n1, n2, n3, n4, n5, n6, n7, n8, n9, n10, n11⟩ := hi.nodup
     nodup_tac
 
-theorem pendingDetach_subIdx {s s1 s' : State} {sub : Sub} {delay : Dur} {b : Bool} (hc : CountInv s) (hi : SubIdx s)
-    (hsub : s.subs.get sub.id = some sub) (hst : sub.status = .StatusActive)
+/-- What the tail shared by `MsgCancel` and the expiry branch does to the thirteen tables. -/
+theorem pendingDetach_view {s s1 s' : State} {sub : Sub} {delay : Dur} {b : Bool} (hk : Keyed s)
     (hf : SessFrame { s with subQ := s.subQ.erase (sub.inactiveAt, sub.id) } s1)
-    (h : detachPayout (subToPending s1 sub delay).1 sub b = .ok s') : SubIdx s' := by
+    (h : detachPayout (subToPending s1 sub delay).1 sub b = .ok s') :
+    (isHourly sub = true ∧ ∃ p, s.payouts.get sub.id = some p ∧
+      subView s' = { subView s with
+        subs := s.subs.set sub.id { sub with inactiveAt := s.time + delay, status := .StatusInactivePending, statusAt := s.time },
+        subQ := (s.subQ.erase (sub.inactiveAt, sub.id)).set (s.time + delay, sub.id) (),
+        payForAccNode := s.payForAccNode.erase (p.addr, p.node, sub.id),
+        payQ := s.payQ.erase (p.nextAt, sub.id),
+        payouts := s.payouts.set sub.id { p with nextAt := zeroTime } }) ∨
+    (isHourly sub = false ∧
+      subView s' = { subView s with
+        subs := s.subs.set sub.id { sub with inactiveAt := s.time + delay, status := .StatusInactivePending, statusAt := s.time },
+        subQ := (s.subQ.erase (sub.inactiveAt, sub.id)).set (s.time + delay, sub.id) () }) := by
   unfold detachPayout at h
   split at h
-  · simp only [bind_eq_ok, pure_eq_ok] at h
+  · rename_i hh
+    simp only [bind_eq_ok, pure_eq_ok] at h
     obtain ⟨p, hp, rfl⟩ := h
     have hp' : s.payouts.get sub.id = some p := by
       cases b <;> simp only [orPanic_eq_ok, orReject_eq_ok, if_true, if_false, Bool.false_eq_true] at hp <;>
         (rw [hf] at hp; exact hp)
-    have hpid : p.id = sub.id := (hc.payouts _ _ hp').1
-    refine SubIdxV.of_eq ?_ (pendingHourlyV (t' := s.time + delay) hi.toV hsub hst hp' (sub' := (subToPending s1 sub delay).2)
-      (p' := { p with nextAt := zeroTime }) rfl rfl ?_ rfl rfl rfl rfl)
-    · rw [hf]; unfold detachPayoutRec; rw [hpid]; rfl
-    · rw [hf]; rfl
+    have hpid : p.id = sub.id := hk.payouts _ _ hp'
+    left
+    refine ⟨hh, p, hp', ?_⟩
+    rw [hf]; unfold detachPayoutRec; rw [hpid]; rfl
   · rename_i hh
     rw [pure_eq_ok] at h; subst h
-    refine SubIdxV.of_eq ?_ (pendingPlainV (t' := s.time + delay) hi.toV hsub (by simpa using hh) (sub' := (subToPending s1 sub delay).2)
-      rfl rfl ?_)
-    · rw [hf]; rfl
-    · rw [hf]; rfl
+    right
+    refine ⟨by simpa using hh, ?_⟩
+    rw [hf]; rfl
+
+theorem pendingDetach_subIdx {s s1 s' : State} {sub : Sub} {delay : Dur} {b : Bool} (hk : Keyed s) (hi : SubIdx s)
+    (hsub : s.subs.get sub.id = some sub) (hst : sub.status = .StatusActive)
+    (hf : SessFrame { s with subQ := s.subQ.erase (sub.inactiveAt, sub.id) } s1)
+    (h : detachPayout (subToPending s1 sub delay).1 sub b = .ok s') : SubIdx s' := by
+  rcases pendingDetach_view hk hf h with ⟨_, p, hp, e⟩ | ⟨hh, e⟩
+  · exact SubIdxV.of_eq e (pendingHourlyV (t' := s.time + delay) hi.toV hsub hst hp rfl rfl rfl rfl rfl rfl rfl)
+  · exact SubIdxV.of_eq e (pendingPlainV (t' := s.time + delay) hi.toV hsub hh rfl rfl rfl)
+
+theorem pendingDetach_keyed {s s1 s' : State} {sub : Sub} {delay : Dur} {b : Bool} (hk : Keyed s)
+    (hf : SessFrame { s with subQ := s.subQ.erase (sub.inactiveAt, sub.id) } s1)
+    (h : detachPayout (subToPending s1 sub delay).1 sub b = .ok s') : Keyed s' := by
+  rcases pendingDetach_view hk hf h with ⟨_, p, hp, e⟩ | ⟨hh, e⟩
+  · have hpid : p.id = sub.id := hk.payouts _ _ hp
+    refine KeyedV.of_eq e ?_
+    clear hf h e
+    keyed_tac hk
+  · refine KeyedV.of_eq e ?_
+    clear hf h e
+    keyed_tac hk
 
 theorem subCancel_subIdx {s s' : State} {frm : Addr} {id : Nat} (h : subCancel s frm id = .ok s')
     (hc : CountInv s) (hi : SubIdx s) : SubIdx s' := by
@@ -531,7 +607,7 @@ theorem subCancel_subIdx {s s' : State} {frm : Addr} {id : Nat} (h : subCancel s
   obtain ⟨sub, hsub, _, hst, _, _, s1, h1, h2⟩ := h
   have hid : sub.id = id := (hc.subs _ _ hsub).1
   subst hid
-  exact pendingDetach_subIdx hc hi hsub (by simpa using hst) (subscriptionInactivePendingHook_frame h1) h2
+  exact pendingDetach_subIdx hc.keyed hi hsub (by simpa using hst) (subscriptionInactivePendingHook_frame h1) h2
 
 /-! ### `MsgAllocate` -/
 
@@ -628,10 +704,17 @@ theorem payoutStep_view {s s' : State} {k : Time × Nat} (h : payoutStep s k = .
   simp only [payoutAdvance_id]
   split <;> rfl
 
-theorem payoutStep_subIdx {s s' : State} {k : Time × Nat} (h : payoutStep s k = .ok s') (hq : s.payQ.has k = true)
-    (hc : CountInv s) (hi : SubIdx s) : SubIdx s' := by
+theorem payoutStep_keyed {s s' : State} {k : Time × Nat} (h : payoutStep s k = .ok s') (hk : Keyed s) : Keyed s' := by
   obtain ⟨item, hitem, hv⟩ := payoutStep_view h
-  have hid : item.id = k.2 := (hc.payouts _ _ hitem).1
+  have hid : item.id = k.2 := hk.payouts _ _ hitem
+  have hid' := payoutAdvance_id item
+  refine KeyedV.of_eq hv ?_
+  keyed_tac hk
+
+theorem payoutStep_subIdx {s s' : State} {k : Time × Nat} (h : payoutStep s k = .ok s') (hq : s.payQ.has k = true)
+    (hk : Keyed s) (hi : SubIdx s) : SubIdx s' := by
+  obtain ⟨item, hitem, hv⟩ := payoutStep_view h
+  have hid : item.id = k.2 := hk.payouts _ _ hitem
   obtain ⟨p0, x, hp0, hn, _⟩ := (hi.payQ k.1 k.2).mp hq
   rw [hitem] at hp0; simp only [Option.some.injEq] at hp0; subst hp0
   have hq' : s.payQ.has (item.nextAt, k.2) = true := by rw [hn]; exact hq
@@ -861,5 +944,587 @@ theorem removePlanV {v : SubView} {item : Sub} {j pid : Nat} {d : Denom} {A : Tb
       simp_all [Tbl.has_set, Tbl.has_erase, Tbl.get_set, Tbl.get_erase] <;> grind
   · obtain ⟨n1, n2, n3, n4, n5, n6, n7, n8, n9, n10, n11⟩ := hi.nodup
     nodup_tac
+
+theorem refundSub_frame {s s' : State} {item : Sub} (h : refundSub s item = .ok s') : MoneyFrame s s' := by
+  unfold refundSub at h
+  split at h
+  · simp only [bind_eq_ok] at h
+    obtain ⟨s1, h1, h2⟩ := h
+    have f1 : MoneyFrame s s1 := by
+      split at h1
+      · unfold refundGB at h1
+        simp only [bind_eq_ok, pure_eq_ok, orPanic_eq_ok, panicIfErr_eq_ok] at h1
+        obtain ⟨price, _, a, _, paid, _, ra, _, refund, _, s2, h2', rfl⟩ := h1
+        exact (subtractDeposit_frame h2').trans (MoneyFrame.emit _)
+      · rw [pure_eq_ok] at h1; rw [← h1]; exact MoneyFrame.refl s
+    split at h2
+    · unfold refundHr at h2
+      simp only [bind_eq_ok, pure_eq_ok, orPanic_eq_ok, panicIfErr_eq_ok] at h2
+      obtain ⟨p, _, ra, _, refund, _, s2, h2', rfl⟩ := h2
+      exact f1.trans ((subtractDeposit_frame h2').trans (MoneyFrame.emit _))
+    · rw [pure_eq_ok] at h2; rw [← h2]; exact f1
+  · rw [pure_eq_ok] at h; rw [← h]; exact MoneyFrame.refl s
+
+/-- What the removal branch of the subscription EndBlock does to the thirteen tables. -/
+theorem removal_view {s s2 s' : State} {item : Sub} (hk : Keyed s) (hi : SubIdx s)
+    (hsub : s.subs.get item.id = some item)
+    (hfr : MoneyFrame { s with subQ := s.subQ.erase (item.inactiveAt, item.id) } s2)
+    (h : removePayout (removeSubRecords s2 item) item = .ok s') :
+    (∃ n gb hr dep, item.kind = .node n gb hr dep ∧ hr = 0 ∧
+      subView s' = { subView s with
+        subQ := s.subQ.erase (item.inactiveAt, item.id), subForNode := s.subForNode.erase (n, item.id),
+        allocs := s.allocs.erase (item.id, item.addr), subForAcc := s.subForAcc.erase (item.addr, item.id),
+        subs := s.subs.erase item.id }) ∨
+    (∃ n gb hr dep p, item.kind = .node n gb hr dep ∧ hr ≠ 0 ∧ s.payouts.get item.id = some p ∧
+      subView s' = { subView s with
+        subQ := s.subQ.erase (item.inactiveAt, item.id), subForNode := s.subForNode.erase (n, item.id),
+        allocs := s.allocs.erase (item.id, item.addr), subForAcc := s.subForAcc.erase (item.addr, item.id),
+        subs := s.subs.erase item.id, payouts := s.payouts.erase item.id, payForAcc := s.payForAcc.erase (p.addr, item.id),
+        payForNode := s.payForNode.erase (p.node, item.id) }) ∨
+    (∃ pid d A B, item.kind = .plan pid d ∧
+      (∀ k, A.get k = if k.1 = item.id then none else s.allocs.get k) ∧
+      (∀ k, B.has k = (!decide (k.2 = item.id) && s.subForAcc.has k)) ∧ Tbl.Nodup A ∧ Tbl.Nodup B ∧
+      subView s' = { subView s with
+        subQ := s.subQ.erase (item.inactiveAt, item.id), subForPlan := s.subForPlan.erase (pid, item.id),
+        allocs := A, subForAcc := B, subs := s.subs.erase item.id }) := by
+  unfold removePayout at h
+  cases hkd : item.kind with
+  | node n gb hr dep =>
+    by_cases hr0 : hr = 0
+    · have hh : isHourly item = false := by simp [isHourly, hkd, hr0]
+      simp only [hh, Bool.false_eq_true, if_false, pure_eq_ok] at h
+      subst h
+      left
+      refine ⟨n, gb, hr, dep, rfl, hr0, ?_⟩
+      rw [hfr.eq]; unfold removeSubRecords; simp only [hkd]; rfl
+    · have hh : isHourly item = true := by simp [isHourly, hkd, hr0]
+      simp only [hh, if_true, bind_eq_ok, pure_eq_ok, orPanic_eq_ok] at h
+      obtain ⟨p, hp, rfl⟩ := h
+      have hp' : s.payouts.get item.id = some p := by
+        rw [hfr.eq] at hp; unfold removeSubRecords at hp; simp only [hkd] at hp; exact hp
+      have hpid : p.id = item.id := hk.payouts _ _ hp'
+      right; left
+      refine ⟨n, gb, hr, dep, p, rfl, hr0, hp', ?_⟩
+      rw [hfr.eq, hpid]; unfold removeSubRecords; simp only [hkd]; rfl
+  | plan pid d =>
+    have hh : isHourly item = false := by simp [isHourly, hkd]
+    simp only [hh, Bool.false_eq_true, if_false, pure_eq_ok] at h
+    subst h
+    have key : ∀ S : State, S.allocs = s.allocs → S.subForAcc = s.subForAcc →
+        (∀ k, (removeAllocs S item.id (allocAddrsForSub S item.id)).allocs.get k = if k.1 = item.id then none else s.allocs.get k) ∧
+        (∀ k, (removeAllocs S item.id (allocAddrsForSub S item.id)).subForAcc.has k = (!decide (k.2 = item.id) && s.subForAcc.has k)) ∧
+        Tbl.Nodup (removeAllocs S item.id (allocAddrsForSub S item.id)).allocs ∧
+        Tbl.Nodup (removeAllocs S item.id (allocAddrsForSub S item.id)).subForAcc := by
+      intro S eA eB
+      refine ⟨?_, ?_, ?_⟩
+      · rintro ⟨k1, k2⟩
+        have hm := mem_allocAddrsForSub S item.id k2
+        rw [eA] at hm
+        rw [removeAllocs_allocs, eA]
+        by_cases h1 : k1 = item.id
+        · subst h1
+          by_cases h2 : k2 ∈ allocAddrsForSub S item.id
+          · simp [h2]
+          · have := mt hm.mpr h2
+            simp only [h2, and_false, if_false, if_true]
+            exact Tbl.get_none_of_has (by simpa using this)
+        · simp [h1]
+      · rintro ⟨k1, k2⟩
+        rw [removeAllocs_subForAcc, eB]
+        by_cases h1 : k2 = item.id
+        · subst h1
+          by_cases h2 : s.subForAcc.has (k1, item.id) = true
+          · have hm := (mem_allocAddrsForSub S item.id k1).mpr (by
+              rw [eA]
+              obtain ⟨x, hx, hor⟩ := (hi.acc k1 item.id).mp h2
+              rw [hsub] at hx; simp only [Option.some.injEq] at hx; subst hx
+              rcases hor with e | e
+              · rw [← e]; exact hi.ownerAlloc _ _ hsub hh
+              · exact e)
+            simp [hm]
+          · simp [h2]
+        · simp [h1]
+      · exact removeAllocs_nodup _ _ _ (by rw [eA]; exact hi.nodup.2.2.2.2.2.1) (by rw [eB]; exact hi.nodup.2.2.1)
+    obtain ⟨hA, hB, nA, nB⟩ := key { s2 with subForPlan := s2.subForPlan.erase (pid, item.id) }
+      (by rw [hfr.eq]) (by rw [hfr.eq])
+    right; right
+    refine ⟨pid, d, _, _, rfl, hA, hB, nA, nB, ?_⟩
+    unfold removeSubRecords; simp only [hkd]
+    rw [removeAllocs_frame, hfr.eq]
+    rfl
+
+theorem removal_subIdx {s s2 s' : State} {item : Sub} (hk : Keyed s) (hi : SubIdx s)
+    (hsub : s.subs.get item.id = some item) (hst : item.status ≠ .StatusActive)
+    (hfr : MoneyFrame { s with subQ := s.subQ.erase (item.inactiveAt, item.id) } s2)
+    (h : removePayout (removeSubRecords s2 item) item = .ok s') : SubIdx s' := by
+  rcases removal_view hk hi hsub hfr h with ⟨n, gb, hr, dep, hkd, hr0, e⟩ | ⟨n, gb, hr, dep, p, hkd, hr0, hp, e⟩ |
+      ⟨pid, d, A, B, hkd, hA, hB, nA, nB, e⟩
+  · exact SubIdxV.of_eq e (removeNodePlainV (j := item.id) hi.toV hsub hkd hr0)
+  · exact SubIdxV.of_eq e (removeNodeHourlyV (j := item.id) hi.toV hsub hkd hr0 hst hp)
+  · refine SubIdxV.of_eq e (removePlanV (j := item.id) hi.toV hsub hkd ?_ hB nA nB)
+    intro k
+    unfold Tbl.has; rw [hA]
+    by_cases h1 : k.1 = item.id <;> simp [h1]
+
+theorem removal_keyed {s s2 s' : State} {item : Sub} (hk : Keyed s) (hi : SubIdx s)
+    (hsub : s.subs.get item.id = some item)
+    (hfr : MoneyFrame { s with subQ := s.subQ.erase (item.inactiveAt, item.id) } s2)
+    (h : removePayout (removeSubRecords s2 item) item = .ok s') : Keyed s' := by
+  rcases removal_view hk hi hsub hfr h with ⟨n, gb, hr, dep, hkd, hr0, e⟩ | ⟨n, gb, hr, dep, p, hkd, hr0, hp, e⟩ |
+      ⟨pid, d, A, B, hkd, hA, hB, nA, nB, e⟩
+  · refine KeyedV.of_eq e ?_
+    clear hfr h e
+    keyed_tac hk
+  · refine KeyedV.of_eq e ?_
+    clear hfr h e
+    keyed_tac hk
+  · refine KeyedV.of_eq e ?_
+    clear hfr h e
+    refine KeyedV.of_get hk ?_ ?_ ?_ <;> intros <;> rename_i hget
+    · simp only [Tbl.get_erase] at hget; split_ifs at hget; left; exact hget
+    · simp only [] at hget; rw [hA] at hget; split_ifs at hget; left; exact hget
+    · left; exact hget
+
+theorem subscriptionStep_subIdx {s s' : State} {d : Dur} {k : Time × Nat} (h : subscriptionStep d s k = .ok s')
+    (hk : Keyed s) (hi : SubIdx s) : SubIdx s' ∧ Keyed s' := by
+  unfold subscriptionStep at h
+  simp only [bind_eq_ok, orPanic_eq_ok] at h
+  obtain ⟨item, hitem, h⟩ := h
+  have hid : item.id = k.2 := hk.subs _ _ hitem
+  rw [← hid] at hitem
+  split at h
+  · rename_i hs
+    simp only [bind_eq_ok, panicIfErr_eq_ok] at h
+    obtain ⟨s2, h2, h3⟩ := h
+    exact ⟨pendingDetach_subIdx hk hi hitem hs (subscriptionInactivePendingHook_frame h2) h3,
+      pendingDetach_keyed hk (subscriptionInactivePendingHook_frame h2) h3⟩
+  · rename_i hs
+    simp only [bind_eq_ok] at h
+    obtain ⟨s2, h2, h3⟩ := h
+    exact ⟨removal_subIdx hk hi hitem hs (refundSub_frame h2) h3, removal_keyed hk hi hitem (refundSub_frame h2) h3⟩
+
+/-! ### handlers and hook pieces that leave the thirteen tables alone -/
+
+theorem setProvider_subView {s s' : State} {p : Provider} (h : setProvider s p = .ok s') : subView s' = subView s := by
+  unfold setProvider at h
+  split at h <;> simp only [pure_eq_ok, gopanic_ne_ok] at h <;> (try subst h) <;> first | rfl | contradiction
+
+theorem setNode_subView {s s' : State} {n : Node} (h : setNode s n = .ok s') : subView s' = subView s := by
+  unfold setNode at h
+  split at h <;> simp only [pure_eq_ok, gopanic_ne_ok] at h <;> (try subst h) <;> first | rfl | contradiction
+
+theorem setPlan_subView {s s' : State} {p : Plan} (h : setPlan s p = .ok s') : subView s' = subView s := by
+  unfold setPlan at h
+  split at h <;> simp only [pure_eq_ok, gopanic_ne_ok] at h <;> (try subst h) <;> first | rfl | contradiction
+
+theorem provRegister_subView {s s' : State} {frm : Addr} {n i w d : Bytes} (h : provRegister s frm n i w d = .ok s') :
+    subView s' = subView s := by
+  unfold provRegister at h
+  simp only [bind_eq_ok, pure_eq_ok, require_eq_ok] at h
+  obtain ⟨_, _, s1, h1, s2, h2, rfl⟩ := h
+  rw [subView_emit, setProvider_subView h2, subView_of_moneyFrame (fundCommunityPool_frame h1)]
+
+theorem provUpdate_subView {s s' : State} {frm : Addr} {n i w d : Bytes} {st : Status} (h : provUpdate s frm n i w d st = .ok s') :
+    subView s' = subView s := by
+  unfold provUpdate at h
+  simp only [bind_eq_ok, pure_eq_ok, orReject_eq_ok] at h
+  obtain ⟨p, _, s3, h3, rfl⟩ := h
+  rw [subView_emit, setProvider_subView h3]
+  split <;> split <;> rfl
+
+theorem nodeRegister_subView {s s' : State} {frm : Addr} {gb hr : Coins} {url : Bytes} (h : nodeRegister s frm gb hr url = .ok s') :
+    subView s' = subView s := by
+  unfold nodeRegister at h
+  simp only [bind_eq_ok, pure_eq_ok, require_eq_ok] at h
+  obtain ⟨_, _, _, _, _, _, s1, h1, s2, h2, rfl⟩ := h
+  rw [subView_emit, setNode_subView h2, subView_of_moneyFrame (fundCommunityPool_frame h1)]
+
+theorem nodeUpdate_subView {s s' : State} {frm : Addr} {gb hr : Option Coins} {url : Bytes} (h : nodeUpdate s frm gb hr url = .ok s') :
+    subView s' = subView s := by
+  unfold nodeUpdate at h
+  simp only [bind_eq_ok, pure_eq_ok, require_eq_ok, orReject_eq_ok] at h
+  obtain ⟨_, _, _, _, n, _, s1, h1, rfl⟩ := h
+  rw [subView_emit, setNode_subView h1]
+
+theorem nodeStatus_subView {s s' : State} {frm : Addr} {st : Status} (h : nodeStatus s frm st = .ok s') :
+    subView s' = subView s := by
+  unfold nodeStatus at h
+  simp only [bind_eq_ok, pure_eq_ok, orReject_eq_ok] at h
+  obtain ⟨n, _, s5, h5, rfl⟩ := h
+  rw [subView_emit, setNode_subView h5]
+  split <;> split <;> split <;> split <;> rfl
+
+theorem planCreate_subView {s s' : State} {frm : Addr} {dur : Dur} {gb : Int} {prices : Coins}
+    (h : planCreate s frm dur gb prices = .ok s') : subView s' = subView s := by
+  unfold planCreate at h
+  simp only [bind_eq_ok, pure_eq_ok, require_eq_ok] at h
+  obtain ⟨_, _, s1, h1, rfl⟩ := h
+  have e := setPlan_subView h1
+  rw [subView_emit]
+  exact (rfl : subView { s1 with planForProv := _ } = subView s1).trans (e.trans rfl)
+
+theorem planStatus_subView {s s' : State} {frm : Addr} {id : Nat} {st : Status}
+    (h : planStatus s frm id st = .ok s') : subView s' = subView s := by
+  unfold planStatus at h
+  simp only [bind_eq_ok, pure_eq_ok, require_eq_ok, orReject_eq_ok] at h
+  obtain ⟨p, hp, _, _, s3, h3, rfl⟩ := h
+  rw [subView_emit, setPlan_subView h3]
+  split <;> split <;> rfl
+
+theorem planLink_subView {s s' : State} {frm : Addr} {id : Nat} {node : Addr}
+    (h : planLink s frm id node = .ok s') : subView s' = subView s := by
+  unfold planLink at h
+  simp only [bind_eq_ok, pure_eq_ok, require_eq_ok, orReject_eq_ok] at h
+  obtain ⟨p, _, _, _, _, _, rfl⟩ := h
+  rfl
+
+theorem planUnlink_subView {s s' : State} {frm : Addr} {id : Nat} {node : Addr}
+    (h : planUnlink s frm id node = .ok s') : subView s' = subView s := by
+  unfold planUnlink at h
+  simp only [bind_eq_ok, pure_eq_ok, require_eq_ok, orReject_eq_ok] at h
+  obtain ⟨p, _, _, _, rfl⟩ := h
+  rfl
+
+theorem sessStart_subView {s s' : State} {frm : TextAddr} {id : Nat} {node : Addr}
+    (h : sessStart s frm id node = .ok s') : subView s' = subView s := by
+  unfold sessStart at h
+  simp only [bind_eq_ok, pure_eq_ok, require_eq_ok, orReject_eq_ok] at h
+  obtain ⟨sub, _, _, _, n, _, _, _, _, _, _, _, latest, _, _, _, rfl⟩ := h
+  rfl
+
+theorem sessUpdate_subView {s s' : State} {frm : Addr} {id : Nat} {up down dur : Int} {sig : SigSpec}
+    (h : sessUpdate s frm id up down dur sig = .ok s') : subView s' = subView s := by
+  unfold sessUpdate at h
+  simp only [bind_eq_ok, pure_eq_ok, require_eq_ok, orReject_eq_ok] at h
+  obtain ⟨x, _, _, _, _, _, _, _, rfl⟩ := h
+  rw [subView_emit]
+  split <;> rfl
+
+theorem sessEnd_subView {s s' : State} {frm : Addr} {id : Nat} (h : sessEnd s frm id = .ok s') : subView s' = subView s := by
+  unfold sessEnd at h
+  simp only [bind_eq_ok, pure_eq_ok, require_eq_ok, orReject_eq_ok] at h
+  obtain ⟨x, _, _, _, _, _, rfl⟩ := h
+  rfl
+
+theorem swap_subView {s s' : State} {frm recv : Addr} {hash : Bytes} {amt : Int}
+    (h : swap s frm hash recv amt = .ok s') : subView s' = subView s := by
+  unfold swap sendModuleToAccount mintCoins at h
+  simp only [bind_eq_ok, pure_eq_ok, require_eq_ok] at h
+  obtain ⟨_, _, _, _, _, _, q, _, coin, _, s1, ⟨nb, _, ns, _, rfl⟩, s2, h2, rfl⟩ := h
+  split at h2
+  · simp [reject] at h2
+  · rw [subView_emit]
+    exact (rfl : subView { s2 with swaps := _ } = subView s2).trans
+      ((subView_of_moneyFrame (sendCoins_frame h2)).trans (by unfold setSupply setBalance; rfl))
+
+/-- Every message handler preserves `SubIdx` (`0 ≤ hr` for `MsgSubscribe` comes from `ValidateBasic`). -/
+theorem handle_subIdx {s s' : State} {m : Msg} (h : m.handle s = .ok s') (hv : m.validateBasic = .ok ())
+    (hc : CountInv s) (hi : SubIdx s) : SubIdx s' := by
+  cases m <;> simp only [Msg.handle] at h
+  case provRegister => exact SubIdx.of_view (provRegister_subView h) hi
+  case provUpdate => exact SubIdx.of_view (provUpdate_subView h) hi
+  case nodeRegister => exact SubIdx.of_view (nodeRegister_subView h) hi
+  case nodeUpdate => exact SubIdx.of_view (nodeUpdate_subView h) hi
+  case nodeStatus => exact SubIdx.of_view (nodeStatus_subView h) hi
+  case nodeSubscribe frm node gb hr denom =>
+    have h0 : 0 ≤ hr := by
+      unfold Msg.validateBasic at hv
+      simp only [bind_eq_ok, require_eq_ok] at hv
+      obtain ⟨_, _, _, _, _, _, _, _, _, _, _, h0, _⟩ := hv
+      simpa using h0
+    exact nodeSubscribe_subIdx h h0 hc hi
+  case planCreate => exact SubIdx.of_view (planCreate_subView h) hi
+  case planStatus => exact SubIdx.of_view (planStatus_subView h) hi
+  case planLink => exact SubIdx.of_view (planLink_subView h) hi
+  case planUnlink => exact SubIdx.of_view (planUnlink_subView h) hi
+  case planSubscribe => exact planSubscribe_subIdx h hc hi
+  case subCancel => exact subCancel_subIdx h hc hi
+  case subAllocate => exact subAllocate_subIdx h hc hi
+  case sessStart => exact SubIdx.of_view (sessStart_subView h) hi
+  case sessUpdate => exact SubIdx.of_view (sessUpdate_subView h) hi
+  case sessEnd => exact SubIdx.of_view (sessEnd_subView h) hi
+  case swap => exact SubIdx.of_view (swap_subView h) hi
+
+/-! ### messages, governance -/
+
+theorem CountInv.clearEvents {s : State} (hc : CountInv s) : CountInv { s with events := [] } :=
+  ⟨hc.plans, hc.subs, hc.allocs, hc.payouts, hc.sessions, hc.planIdx, hc.subIdx, hc.sessIdx⟩
+
+theorem deliver_subIdx (s : State) (m : Msg) (hc : CountInv s) (hi : SubIdx s) : SubIdx (deliver s m).1 := by
+  have h0 : SubIdx { s with events := [] } := SubIdx.of_view (s := s) rfl hi
+  unfold deliver
+  simp only []
+  cases hr : (do m.validateBasic; m.handle { s with events := [] } : M State) with
+  | ok s' =>
+    simp only [bind_eq_ok] at hr
+    obtain ⟨u, hv, hh⟩ := hr
+    exact handle_subIdx hh hv hc.clearEvents h0
+  | error e => cases e <;> exact h0
+
+theorem gov_subView {s s' : State} {c : ParamChange} (hg : gov s c = some s') : subView s' = subView s := by
+  unfold gov at hg
+  cases c <;> simp only [] at hg <;> (try split at hg) <;> (try split at hg) <;>
+    first
+      | (simp only [Option.some.injEq] at hg; rw [← hg]; rfl)
+      | (simp only [reduceCtorEq] at hg)
+
+theorem gov_subIdx (s : State) (c : ParamChange) (hi : SubIdx s) : SubIdx ((gov s c).getD s) := by
+  cases hg : gov s c with
+  | none => exact hi
+  | some s' => exact SubIdx.of_view (gov_subView hg) hi
+
+/-! ### BeginBlock -/
+
+theorem subView_mintBeginBlock_go (l : List Inflation) (s : State) : subView (mintBeginBlock.go s l) = subView s := by
+  induction l generalizing s with
+  | nil => rfl
+  | cons item rest ih =>
+    unfold mintBeginBlock.go
+    split
+    · rfl
+    · rw [ih]; rfl
+
+theorem subView_distrSweep (s : State) : subView (distrSweep s) = subView s := by
+  unfold distrSweep
+  exact foldl_inv (fun s' => subView s' = subView s) sweepDenom
+    (fun s0 d h => (by unfold sweepDenom setBalance; rfl : subView (sweepDenom s0 d) = subView s0).trans h) _ s rfl
+
+/-- The payout loop: the snapshot of due keys stays live (each step removes only its own key, and no
+two snapshot keys share an id). -/
+theorem payoutFold_subIdx (l : List (Time × Nat)) (hl : (l.map (·.2)).Nodup) (s s' : State)
+    (h : l.foldlM (fun s k => panicIfErr (payoutStep s k)) s = .ok s')
+    (hk : Keyed s) (hi : SubIdx s) (hlive : ∀ k ∈ l, s.payQ.has k = true) : SubIdx s' ∧ Keyed s' := by
+  induction l generalizing s with
+  | nil => simp only [List.foldlM, pure_eq_ok] at h; rw [← h]; exact ⟨hi, hk⟩
+  | cons k rest ih =>
+    simp only [List.foldlM, bind_eq_ok, panicIfErr_eq_ok] at h
+    obtain ⟨s1, h1, h2⟩ := h
+    simp only [List.map_cons, List.nodup_cons] at hl
+    refine ih hl.2 s1 h2 (payoutStep_keyed h1 hk) (payoutStep_subIdx h1 (hlive k (by simp)) hk hi) ?_
+    intro k' hk'
+    have hne : k'.2 ≠ k.2 := by
+      intro e; exact hl.1 (e ▸ List.mem_map.mpr ⟨k', hk', rfl⟩)
+    obtain ⟨item, hitem, hv⟩ := payoutStep_view h1
+    have hid : item.id = k.2 := hk.payouts _ _ hitem
+    have e : s1.payQ = (subView s1).payQ := rfl
+    rw [e, hv]
+    simp only []
+    have hold := hlive k' (by simp [hk'])
+    obtain ⟨t', i'⟩ := k'
+    simp only at hne
+    split <;> simp [Tbl.has_set, Tbl.has_erase, hid, Ne.symm hne, hold]
+
+theorem beginBlock_subIdx {s s' : State} {t : Time} (h : beginBlock s t = .ok s') (hk : Keyed s) (hi : SubIdx s) :
+    SubIdx s' ∧ Keyed s' := by
+  unfold beginBlock haltOf at h
+  split at h <;> try contradiction
+  rename_i s'' hs
+  simp only [Except.ok.injEq] at h
+  subst h
+  unfold subscriptionBeginBlock at hs
+  have e0 : subView (distrSweep (mintBeginBlock { s with time := t, height := s.height + 1, events := [] })) = subView s := by
+    rw [subView_distrSweep]; unfold mintBeginBlock; rw [subView_mintBeginBlock_go]; rfl
+  have hi0 := SubIdx.of_view e0 hi
+  have hk0 := Keyed.of_view e0 hk
+  refine payoutFold_subIdx _ ?_ _ _ hs hk0 hi0 (fun k hk' => mem_dueIds hk')
+  refine List.Nodup.map_on ?_ (nodup_dueIds _ _ hi0.nodup.2.2.2.2.2.2.2.1)
+  intro x hx y hy exy
+  obtain ⟨p, _, hp, hn, _⟩ := (hi0.payQ x.1 x.2).mp (mem_dueIds hx)
+  obtain ⟨p', _, hp', hn', _⟩ := (hi0.payQ y.1 y.2).mp (mem_dueIds hy)
+  rw [exy, hp'] at hp
+  simp only [Option.some.injEq] at hp; subst hp
+  exact Prod.ext (hn.symm.trans hn') exy
+
+/-! ### EndBlock -/
+
+theorem sessionInactiveHook_keyed {s s' : State} {id : Nat} {acc node : Addr} {bytes : Int}
+    (h : sessionInactiveHook s id acc node bytes = .ok s') (hk : Keyed s) : Keyed s' := by
+  obtain ⟨x, sub, _, _, _, h | ⟨_, a, ha, hfr⟩⟩ := sessionInactiveHook_eff h
+  · rw [h.2]; exact hk
+  · generalize allocAfterUse a (a.used + bytes) = a' at hfr
+    have e : subView s' = { subView s with allocs := s.allocs.set (a'.id, a'.addr) a' } := by
+      rw [subView_of_moneyFrame hfr]; rfl
+    refine KeyedV.of_eq e ?_
+    clear hfr e
+    keyed_tac hk
+
+theorem sessionStep_subIdx' {s s' : State} {k : Time × Nat} (h : sessionStep s k = .ok s') (hk : Keyed s)
+    (hi : SubIdx s) : SubIdx s' ∧ Keyed s' := by
+  refine ⟨sessionStep_subIdx h hk.allocs hi, ?_⟩
+  obtain ⟨item, _, ⟨_, rfl⟩ | ⟨_, s2, h2, rfl⟩⟩ := sessionStep_eff h
+  · exact Keyed.of_view (s := s) rfl hk
+  · exact Keyed.of_view (s := s2) rfl (sessionInactiveHook_keyed h2 (Keyed.of_view (s := s) rfl hk))
+
+theorem nodeSweep_subView {s s' : State} (h : nodeSweep s = .ok s') : subView s' = subView s := by
+  unfold nodeSweep at h
+  split at h
+  · rw [pure_eq_ok] at h; rw [h]
+  · refine foldlM_inv (fun s0 => subView s0 = subView s) _ ?_ _ s s' h rfl
+    intro s0 a s1 h1 hp
+    simp only [bind_eq_ok, pure_eq_ok, orPanic_eq_ok] at h1
+    obtain ⟨item, _, s2, h2, rfl⟩ := h1
+    rw [subView_emit, setNode_subView h2, hp]
+
+theorem nodeExpire_subView {s s' : State} (h : nodeExpire s = .ok s') : subView s' = subView s := by
+  unfold nodeExpire at h
+  refine foldlM_inv (fun s0 => subView s0 = subView s) _ ?_ _ s s' h rfl
+  intro s0 k s1 h1 hp
+  unfold nodeExpireStep at h1
+  simp only [bind_eq_ok, pure_eq_ok, orPanic_eq_ok] at h1
+  obtain ⟨item, _, s3, h3, rfl⟩ := h1
+  rw [subView_emit, setNode_subView h3, ← hp]; rfl
+
+theorem endBlock_subIdx {s s' : State} (h : endBlock s = .ok s') (hk : Keyed s) (hi : SubIdx s) : SubIdx s' ∧ Keyed s' := by
+  unfold endBlock haltOf at h
+  split at h <;> try contradiction
+  rename_i s2 hs
+  split at hs <;> try contradiction
+  rename_i s3 hs3
+  simp only [Except.ok.injEq] at hs h
+  subst hs; subst h
+  unfold vpnEndBlock nodeEndBlock at hs3
+  simp only [bind_eq_ok] at hs3
+  obtain ⟨s1, ⟨sa, ha, hb⟩, sb, hc, hd⟩ := hs3
+  have e1 : subView s1 = subView s := by rw [nodeExpire_subView hb, nodeSweep_subView ha]; rfl
+  have i1 : SubIdx s1 ∧ Keyed s1 := ⟨SubIdx.of_view e1 hi, Keyed.of_view e1 hk⟩
+  have i2 : SubIdx sb ∧ Keyed sb :=
+    foldlM_inv (fun s => SubIdx s ∧ Keyed s) _ (fun s0 k s1 h1 hp => sessionStep_subIdx' h1 hp.2 hp.1) _ _ _ hc i1
+  have i3 : SubIdx s3 ∧ Keyed s3 :=
+    foldlM_inv (fun s => SubIdx s ∧ Keyed s) _ (fun s0 k s1 h1 hp => subscriptionStep_subIdx h1 hp.2 hp.1) _ _ _ hd i2
+  exact ⟨SubIdx.of_view (s := s3) rfl i3.1, Keyed.of_view (s := s3) rfl i3.2⟩
+
+/-- One operation of a history. `CountInv s` is needed for the freshness of new subscription ids (`tx`);
+block hooks only need records to sit under their own ids, which they keep themselves. -/
+theorem step_subIdx {s s' : State} {op : Op} (h : step s op = some s') (hc : CountInv s) (hi : SubIdx s) : SubIdx s' := by
+  cases op with
+  | tx m =>
+    simp only [step, Option.some.injEq] at h
+    rw [← h]; exact deliver_subIdx s m hc hi
+  | begin t =>
+    simp only [step] at h
+    split at h
+    · rename_i s1 hb
+      simp only [Option.some.injEq] at h; rw [← h]; exact (beginBlock_subIdx hb hc.keyed hi).1
+    · contradiction
+  | endB =>
+    simp only [step] at h
+    split at h
+    · rename_i s1 hb
+      simp only [Option.some.injEq] at h; rw [← h]; exact (endBlock_subIdx hb hc.keyed hi).1
+    · contradiction
+  | gov c =>
+    simp only [step, Option.some.injEq] at h
+    rw [← h]; exact gov_subIdx s c hi
+
+/-! ### genesis -/
+
+theorem subView_addBalance (s : State) (b : Addr × Denom × Int) : subView (addBalance s b) = subView s := by
+  unfold addBalance
+  split
+  · rfl
+  · unfold setSupply setBalance; rfl
+
+theorem genesis_subIdx (g : Genesis) : SubIdx g.state := by
+  have e : subView g.state = subView g.base := by
+    unfold Genesis.state
+    exact foldl_inv (fun s' => subView s' = subView g.base) addBalance
+      (fun s0 b h => (subView_addBalance s0 b).trans h) _ _ rfl
+  refine SubIdx.of_view e ?_
+  have hn : ∀ {κ α : Type} [DecidableEq κ] (k : κ), Tbl.has ([] : Tbl κ α) k = false := fun _ => rfl
+  refine ⟨?_, ?_, ?_, ?_, ?_, ?_, ?_, ?_, ?_, ?_, ?_, ?_, ?_, ?_, ?_⟩ <;>
+    (try intros) <;> simp_all [Genesis.base, Tbl.has, Tbl.get, Tbl.Nodup]
+
+/-- **C09 (subscription side), all histories**, given that `CountInv` is kept by every operation
+(proved separately, `Hub/Lemmas/CountSteps.lean`). -/
+theorem subIdx_all_histories
+    (hcStep : ∀ s op s', step s op = some s' → CountInv s → CountInv s')
+    (ops : List Op) (s : State) (hc : CountInv s) (hi : SubIdx s) : ∀ s' ∈ runTrace s ops, SubIdx s' ∧ CountInv s' := by
+  induction ops generalizing s with
+  | nil => intro s' h; simp [runTrace] at h
+  | cons op rest ih =>
+    intro s' h
+    simp only [runTrace] at h
+    cases hst : step s op with
+    | none => simp [hst] at h
+    | some s1 =>
+      simp only [hst, List.mem_cons] at h
+      have i1 := step_subIdx hst hc hi
+      have c1 := hcStep s op s1 hst hc
+      rcases h with h | h
+      · rw [h]; exact ⟨i1, c1⟩
+      · exact ih s1 c1 i1 s' h
+
+/-! ### the same as `…_subIdx` statements, one per handler / hook piece -/
+
+theorem provRegister_subIdx {s s' : State} {frm : Addr} {n i w d : Bytes}
+    (h : provRegister s frm n i w d = .ok s') (hi : SubIdx s) : SubIdx s' :=
+  SubIdx.of_view (provRegister_subView h) hi
+
+theorem provUpdate_subIdx {s s' : State} {frm : Addr} {n i w d : Bytes} {st : Status}
+    (h : provUpdate s frm n i w d st = .ok s') (hi : SubIdx s) : SubIdx s' :=
+  SubIdx.of_view (provUpdate_subView h) hi
+
+theorem nodeRegister_subIdx {s s' : State} {frm : Addr} {gb hr : Coins} {url : Bytes}
+    (h : nodeRegister s frm gb hr url = .ok s') (hi : SubIdx s) : SubIdx s' :=
+  SubIdx.of_view (nodeRegister_subView h) hi
+
+theorem nodeUpdate_subIdx {s s' : State} {frm : Addr} {gb hr : Option Coins} {url : Bytes}
+    (h : nodeUpdate s frm gb hr url = .ok s') (hi : SubIdx s) : SubIdx s' :=
+  SubIdx.of_view (nodeUpdate_subView h) hi
+
+theorem nodeStatus_subIdx {s s' : State} {frm : Addr} {st : Status}
+    (h : nodeStatus s frm st = .ok s') (hi : SubIdx s) : SubIdx s' :=
+  SubIdx.of_view (nodeStatus_subView h) hi
+
+theorem planCreate_subIdx {s s' : State} {frm : Addr} {dur : Dur} {gb : Int} {prices : Coins}
+    (h : planCreate s frm dur gb prices = .ok s') (hi : SubIdx s) : SubIdx s' :=
+  SubIdx.of_view (planCreate_subView h) hi
+
+theorem planStatus_subIdx {s s' : State} {frm : Addr} {id : Nat} {st : Status}
+    (h : planStatus s frm id st = .ok s') (hi : SubIdx s) : SubIdx s' :=
+  SubIdx.of_view (planStatus_subView h) hi
+
+theorem planLink_subIdx {s s' : State} {frm : Addr} {id : Nat} {node : Addr}
+    (h : planLink s frm id node = .ok s') (hi : SubIdx s) : SubIdx s' :=
+  SubIdx.of_view (planLink_subView h) hi
+
+theorem planUnlink_subIdx {s s' : State} {frm : Addr} {id : Nat} {node : Addr}
+    (h : planUnlink s frm id node = .ok s') (hi : SubIdx s) : SubIdx s' :=
+  SubIdx.of_view (planUnlink_subView h) hi
+
+theorem sessStart_subIdx {s s' : State} {frm : TextAddr} {id : Nat} {node : Addr}
+    (h : sessStart s frm id node = .ok s') (hi : SubIdx s) : SubIdx s' :=
+  SubIdx.of_view (sessStart_subView h) hi
+
+theorem sessUpdate_subIdx {s s' : State} {frm : Addr} {id : Nat} {up down dur : Int} {sig : SigSpec}
+    (h : sessUpdate s frm id up down dur sig = .ok s') (hi : SubIdx s) : SubIdx s' :=
+  SubIdx.of_view (sessUpdate_subView h) hi
+
+theorem sessEnd_subIdx {s s' : State} {frm : Addr} {id : Nat}
+    (h : sessEnd s frm id = .ok s') (hi : SubIdx s) : SubIdx s' :=
+  SubIdx.of_view (sessEnd_subView h) hi
+
+theorem swap_subIdx {s s' : State} {frm recv : Addr} {hash : Bytes} {amt : Int}
+    (h : swap s frm hash recv amt = .ok s') (hi : SubIdx s) : SubIdx s' :=
+  SubIdx.of_view (swap_subView h) hi
+
+theorem nodeSweep_subIdx {s s' : State}
+    (h : nodeSweep s = .ok s') (hi : SubIdx s) : SubIdx s' :=
+  SubIdx.of_view (nodeSweep_subView h) hi
+
+theorem nodeExpire_subIdx {s s' : State}
+    (h : nodeExpire s = .ok s') (hi : SubIdx s) : SubIdx s' :=
+  SubIdx.of_view (nodeExpire_subView h) hi
+
+theorem subscriptionInactivePendingHook_subIdx {s s' : State} {id : Nat}
+    (h : subscriptionInactivePendingHook s id = .ok s') (hi : SubIdx s) : SubIdx s' := by
+  have hf := subscriptionInactivePendingHook_frame h
+  exact SubIdx.of_view (by rw [hf]; rfl) hi
+
+theorem mintBeginBlock_subIdx (s : State) (hi : SubIdx s) : SubIdx (mintBeginBlock s) :=
+  SubIdx.of_view (subView_mintBeginBlock_go _ s) hi
+
+theorem distrSweep_subIdx (s : State) (hi : SubIdx s) : SubIdx (distrSweep s) :=
+  SubIdx.of_view (subView_distrSweep s) hi
 
 end Hub.Model
